@@ -269,7 +269,23 @@ func SiteFromPanic(val any, stack []byte) string {
 	if i := strings.LastIndex(st, "\npanic("); i >= 0 {
 		st = st[i+1:]
 	}
-	for _, ln := range strings.Split(st, "\n") {
+	lines := strings.Split(st, "\n")
+	hasRepoFrame := false
+	for _, ln := range lines {
+		if strings.HasPrefix(ln, "github.com/goplus/xgo/") {
+			hasRepoFrame = true
+		}
+	}
+	for _, ln := range lines {
+		if !hasRepoFrame && strings.HasPrefix(ln, "github.com/goplus/gogen") {
+			// the panic is raised inside the code generator on a tree the compiler handed over
+			fn = ln
+			if i := strings.LastIndex(fn, "("); i > 0 {
+				fn = fn[:i]
+			}
+			fn = strings.TrimPrefix(fn, "github.com/goplus/")
+			break
+		}
 		if strings.HasPrefix(ln, "github.com/goplus/xgo/") {
 			fn = ln
 			if i := strings.LastIndex(fn, "("); i > 0 {
